@@ -118,7 +118,8 @@ PNAMES = [None, "a", "b", "c", "d", "e", "args", "kwargs", "self", "_call", "_fu
 NAME_TOK = {n: i for i, n in enumerate(PNAMES) if n}
 # function names
 FNAMES = ["f", "target", "_call", "_func", "<lambda>", "r\u00e9sum\u00e9", "wrapper", "_call_",
-          "get-item", "class", "1x", "pkg.mod.fn", "has space", "test[1-2]", "-call", ""]   # __name__ need not be an identifier
+          "get-item", "class", "1x", "pkg.mod.fn", "has space", "test[1-2]", "-call", "",   # __name__ need not be an identifier
+          "x\u00b2", "\u2460", "\ufb01x", "e\u0301"]    # \w but no identifier character; changed by NFKC (ligature, combining accent)
 FNAME_TOK = {n: i for i, n in enumerate(FNAMES)}
 LAMBDA = 4
 NVALS = 40
@@ -246,7 +247,9 @@ def build_function(fd, seen):
     else:
         ret = (" -> _A[%d]" % ann[0]) if 0 in ann else ""
         import keyword
-        defname = fname if (fname.isidentifier() and not keyword.iskeyword(fname)) else "_renamed_later_"
+        import unicodedata
+        natural = fname.isidentifier() and not keyword.iskeyword(fname) and unicodedata.normalize("NFKC", fname) == fname
+        defname = fname if natural else "_renamed_later_"
         src = "%sdef %s(%s)%s:\n    return locals()\n" % ("async " if fd["async"] else "", defname, ", ".join(parts), ret)
         exec(compile(src, "<c13-case>", "exec"), ns)
         f = ns[defname]
